@@ -50,6 +50,11 @@ func checkC03(c *Ctx, r *Report) {
 			if sel, _, st, ok := storeSel(in); ok && sel == fSess && mustPrecede(s.Fn, st, ser) {
 				if f, _, isLit := complitFields(st.Val); isLit {
 					lit, litStore = f, st
+				} else if os := viewOrigins(s.Fn, st.Val); len(os) == 1 {
+					// the literal is built by a helper and handed back
+					if f, _, isLit := complitFields(os[0]); isLit {
+						lit, litStore = f, st
+					}
 				}
 			}
 		})
